@@ -1,6 +1,6 @@
 KERNELS = {'C13_thread': dict(src='kernels/C13_thread.cpp', flags=['-DNDEBUG'])}
 def _c(e, **kw):
-    c = {'MAXE': e, '_unwindset': ['in_data.0:%d' % (e*e + 2), 'k_fill_u32.0:%d' % (e*e + 2), 'step_ok.0:18']}; c.update(kw); return c
+    c = {'MAXE': e, '_unwindset': ['in_data.0:%d' % (e*e + 2), 'k_fill_u32.0:%d' % (e*e + 2), 'step_ok.0:18', 'in_prior.0:18']}; c.update(kw); return c
 BG = ('hybrid 2-d operand (buffer capacity 16) with extents 1..MAXE, all element data, view arguments, the prior content of all 16 output cells, '
       'thread id < block size, block id 0..32 and block size 1..33 are ALL symbolic (global id up to 1088, i.e. far beyond the output size)')
 def _h(name, unwind=8, quick=None, thorough=None, **kw):
